@@ -51,7 +51,7 @@ theorem inv_stepC (G : Gram N) (U : List (Fact N)) (c : Chart N) (hc : Inv G c) 
     Inv G (stepC G U c) := by
   unfold stepC
   have key : ∀ (l : List (Fact N)) (acc : Chart N), Inv G acc →
-      Inv G (l.foldl (fun acc f => if infer G c f then acc.insert f else acc) acc) := by
+      Inv G (l.foldl (fun acc f => if infer G acc f then acc.insert f else acc) acc) := by
     intro l
     induction l with
     | nil => intro acc h; exact h
@@ -59,13 +59,13 @@ theorem inv_stepC (G : Gram N) (U : List (Fact N)) (c : Chart N) (hc : Inv G c) 
       intro acc hacc
       simp only [List.foldl_cons]
       apply ih
-      by_cases hf : infer G c f = true
+      by_cases hf : infer G acc f = true
       · simp only [hf, ↓reduceIte]
         intro g hg
         rw [Std.HashSet.contains_insert] at hg
         simp only [Bool.or_eq_true, beq_iff_eq] at hg
         rcases hg with hg | hg
-        · subst hg; exact infer_sound G c hc f hf
+        · subst hg; exact infer_sound G acc hacc f hf
         · exact hacc g hg
       · simp only [hf]; exact hacc
   exact key U c hc
